@@ -17,7 +17,7 @@ RULE = ("family 'engine': the C01 run families, with the event feed additionally
 ASSUMPTIONS = ["SimStorage (dict) stands for the storage interface; SqliteStorage itself is C09's subject", "bounded histories",
                "rows are compared after decoding with msgpack (byte-level differences that decode equal are not differences)"]
 LEVEL_TEXT = "seeded exploration with an invariant evaluated at every step boundary (about 40 per run) plus a generated-input codec sub-check labelled as such"
-LEVEL_NOTE = "trusted: props/monitors.py comparison; the known lag after a sync step that only refreshed paths (KF-C08-LAG) is matched by its exact field set and call site, anything else is reported"
+LEVEL_NOTE = "trusted: props/monitors.py comparison (decoded rows vs live entries)"
 
 
 def budget(tier):
